@@ -35,7 +35,16 @@ def main():
             r = bex_contract.replay(rp["qualname"], rp["arg_descs"])
             print("contract of", rp["qualname"], "->", r)
             return 1 if r.get("reproduced") else 0
-        args = {k: eval(v, {**ns, "object": bex_contract.specrt.Witness}) for k, v in rp["args"].items()}
+        c = contracts.ALL[rp["qualname"]]
+        args = {}
+        for k, v in rp["args"].items():
+            if v == "<new instance>":
+                args[k] = bex_contract.NEW          # the constructor is replayed on a fresh instance
+                continue
+            val = eval(v, {**ns, "object": bex_contract.specrt.Witness})
+            if c.get("params", {}).get(k) in ("absranges", "abschars") and isinstance(val, list):
+                val = set(val)                      # sets of class items are printed as sorted lists
+            args[k] = val
         r = bex_contract.check_call(rp["qualname"], contracts.ALL[rp["qualname"]], args)
         print("contract of", rp["qualname"], "on", rp["args"], "->", r)
         return 0 if r["ok"] else 1
